@@ -187,6 +187,36 @@ def rt_successors (step : Nat → Option (Option Nat)) (first : Option Nat) : Op
   | none => some []
   | some x => rt_successors_fuel step (x + 1) x
 
+/-! `&mut self` methods are translated by state passing; a `HashMap<K, V>` field is the list of its entries in the iteration
+  order of the call at hand (unspecified in Rust: a theorem about a translated method holds for EVERY list, hence for every
+  order; loops over a map are only translated when they are a search or a running maximum / minimum) -/
+
+/-- `HashMap::insert`: the value of an existing key is replaced in place, a new key is added (at the end of the list; where
+    it would come in the next iteration is unspecified) -/
+def rt_map_insert {κ ν} [DecidableEq κ] : List (κ × ν) → κ → ν → List (κ × ν)
+  | [], k, v => [(k, v)]
+  | (k', v') :: m, k, v => if k' = k then (k, v) :: m else (k', v') :: rt_map_insert m k v
+
+/-- `HashMap::get` -/
+def rt_map_get {κ ν} [DecidableEq κ] (m : List (κ × ν)) (k : κ) : Option ν := (m.find? (fun p => decide (p.1 = k))).map (·.2)
+
+/-- `HashMap::contains_key` -/
+def rt_map_contains {κ ν} [DecidableEq κ] (m : List (κ × ν)) (k : κ) : Bool := m.any (fun p => decide (p.1 = k))
+
+/-- a `for` loop with `return` in its body: the body yields `(some result, state)` to leave the function, `(none, state')` to
+    go on; the value is the first result (if any) and the state reached -/
+def rt_foldl_ret {σ α ρ} (f : σ → α → Option ρ × σ) : σ → List α → Option ρ × σ
+  | s, [] => (none, s)
+  | s, a :: l =>
+    match f s a with
+    | (some r, s') => (some r, s')
+    | (none, s') => rt_foldl_ret f s' l
+
+/-- `Iterator::position` -/
+def rt_position {α} (p : α → Bool) : List α → Option Nat
+  | [] => none
+  | a :: l => if p a then some 0 else (rt_position p l).map (· + 1)
+
 /-- `char::from_u32`: `None` for surrogates and beyond U+10FFFF -/
 def rt_char_from_u32 (n : Nat) : Option Char := if n.isValidChar then some (Char.ofNat n) else none
 
